@@ -118,7 +118,7 @@ def run(vc):
         bound="case9, case14, a ring with a parallel line, a network of double circuits with an unsorted line index (exact ties in the N-1 "
               "maxima, cases given in table order); n_procs in 1..3; every key and value of the result dictionaries incl. cause_element / "
               "cause_index (the task list of the parallel path -- which cases, in which order -- is not under a deductive contract)",
-        script="from replaylib.contingency import main_parallel\nmain_parallel()\n", timeout=1500))
+        script="from replaylib import run_all\nfrom replaylib.contingency import main_parallel, main_parallel_options\nrun_all(main_parallel, main_parallel_options)\n", timeout=1800))
 
 
 def classify(ob, model):
